@@ -1375,7 +1375,11 @@ impl Parser {
         mut prefixes: Vec<Rc<Identifier>>,
     ) -> Result<Rc<Pat>, Box<Error>> {
         let current = self.current_token();
-        let lo = self.current_token().span.lo;
+        // a qualified pattern (`Color.Red`) starts at its first qualifier
+        let lo = match prefixes.first() {
+            Some(prefix) => prefix.loc.lo,
+            None => self.current_token().span.lo,
+        };
         let mut ret = Rc::new(match current.kind {
             TokenKind::Ident(s) => {
                 if self.peek_token(1).kind == TokenKind::Dot {
